@@ -285,6 +285,40 @@ F5 (open at HEAD 1a77bfd, GENUINE; fix suggested in checks/c18/suggested-fix-fet
     7 735 / 60 - not expanding no-op first events pays for the two new events), quick wall 17-19 s;
     thorough 209 768 sequences, 28 241 states, 283 worker-seconds, 141 s wall.
 
-11 of 13 caught by the quick tier (exit 1, VIOLATION lines for new signatures); the two that are not
+c18-seeded-f-heightvoteset-setround-readds-catchup-round | consensus/types: (meta) | YES | 2: Vote(prevote) / Vote(precommit-nil) height+round+signature (min. case: vote height=cur round=2 JUNK
+  (independently seeded, /verif/seeded/C18f: HeightVoteSet.SetRound re-adds a round a peer vote opened as |  signature, then driven on) -> consensus-halted-later ("addRound() for an existing round"),
+   catch-up round)                                                                                |  node-state=all-but(the two commit-wait states), 96 cases each; stable over two runs.
+
+Why C18f was MISSED: nothing happens at delivery; the stored catch-up round only explodes when the node
+  later enters that round. The check looked at the node right after Receive + handleMsg returned.
+Built (driveon.go): DRIVE-ON. After the delivery the node is driven the way the network would drive it -
+  pending timeouts fire, the other validators send correctly signed nil prevotes/precommits - until it has
+  entered >= 3 more rounds; variant "commit": then the round's valid block is proposed (by the fixture's
+  proposer key, or by the node itself when it is the proposer) and voted, and a height commits. Oracle
+  consensus-halted-later: no recovered handler panic at any step, still signing. Applied to a new unit per
+  node state (votes prevote/precommit x height {cur-1,cur,cur+1} x round {cur..cur+4,1000} x {valid, junk}
+  signature; proposals likewise; block parts; commit variant for round cur+2 / cur+3) and to every valid seed.
+  Counts (quick): 1 424 driven cases, 4 272 rounds entered, 130 heights committed, 22 worker-seconds (+1-2 s wall).
+
+F6 (open at HEAD 2cbc26b, GENUINE; fix in checks/c18/suggested-fix-bitarray-or.patch)
+   BitArray.Or indexes the shorter operand out of range: VoteSetBits with a short/empty array panics in Receive
+  C18|reactor=consensus|channel=0x23|msg=VoteSetBits|field=vote_set_bits.votes+vote_set_bits.type+vote_set_bits.round|mutation=bitarray:empty+varint:small+varint:small|node-state=h1-commit-wait-parts+h1-prevote-with-block+h1-prevotewait+h2-commit-wait-parts,peer=known|oracle=runtime-error-in-receive
+  Where: lib/common/bit_array.go:131-136 Or(): c has max(bA.Bits,o.Bits) bits, the loop runs over len(c.Elems)
+    and reads o.Elems[i]: index out of range [0] with length 0 when o has fewer words. Reached from
+    PeerState.ApplyVoteSetBitsMessage (manager.go) `votes.Sub(ourVotes).Or(msg.Votes)` when ourVotes != nil.
+  Minimal input: VoteSetBits{height = node height, round 1, type precommit (or prevote), block_id = a block id
+    for which the node holds votes, votes = {} (0 bits; any bits/elems-inconsistent array also arrives as
+    empty since ad4f98a)} on channel 0x23 from a peer that announced the node's height/round and has been
+    gossiped to (its vote bit arrays exist), in the node states that hold votes for the id: prevote with
+    block, prevote-wait, both commit-wait states. 138 contained panics per quick run (single-field cases),
+    4 in the coupled group that names the signature. Already reachable in the existing enumeration; it was
+    recorded as a contained panic only. Now a violation through the new runtime-error-in-receive oracle.
+  Fix (additive, as upstream): bound the loop by min(len(c.Elems), len(o.Elems)). With it: quick exits 0
+    twice, thorough once (106 s), contained panics 248 -> 110 (only "Peer has no state" of removed peers);
+    lib/common tests pass. It unmasks nothing else, but the rejection oracle had to stop expecting a
+    rejection of INCONSISTENT oversized vote arrays (bits=10001 elems=0): those are empty arrays by ad4f98a.
+  Effect on earlier mutants: M49 (setIndex bound) and similar contained runtime errors are now caught too.
+
+12 of 14 caught by the quick tier (with the new runtime-error oracle M49 is expected to be caught as well: re-run mutants.sh) (exit 1, VIOLATION lines for new signatures); the two that are not
 caught do not break the property as stated (contained panic = "at most the sending peer is dropped").
 */
